@@ -5,7 +5,7 @@ cd /verif
 names="$@"; [ -z "$names" ] && names=$(ls seeded)
 for n in $names; do
   prop=$(python3 -c "import json;print(json.load(open('seeded/$n/meta.json'))['property'])")
-  git -C /repo apply seeded/$n/patch.diff || { echo "$n: patch does not apply"; continue; }
+  git -C /repo apply /verif/seeded/$n/patch.diff || { echo "$n: patch does not apply"; continue; }
   out=$(./check $prop --tier quick 2>&1 | grep -E "^(OK|VIOLATION)" | tail -1)
   git -C /repo checkout -- .
   case "$out" in VIOLATION*) echo "$n: caught ($out)";; *) echo "$n: MISSED ($out)";; esac
